@@ -1,5 +1,6 @@
 """C14 - opening or merging many files yields their concatenation (DESIGN.md 5/C14)."""
 import copy
+import itertools
 import os
 
 import numpy as np
@@ -8,7 +9,7 @@ ID = "C14"
 LEVEL = "exploration"
 FLAVOUR = "plain"
 TECHNIQUE = "runtime monitor: concatenation model over per-file input frames (unique row ids) + audit log of merge() + byte snapshot of the input handles' metadata"
-RULE = ("seeded sets of 1..6 single files (and hive sub-datasets) written from schema-compatible frames with independent category sets, "
+RULE = ("seeded sets of 1..6 single files (plus: sets of hive sub-datasets opened by path / handle / merge, files named by relative paths) written from schema-compatible frames with independent category sets, "
         "row counts incl. 0 and mixed codecs, laid out flat / hive / drill, opened via list, directory, glob and merge() with root "
         "given or inferred; plus schema-mismatch sets for the verify clause; non-trivial = a multi-file open compared on >=1 row; "
         "distinct = distinct (layout, n files, open route, root given, zero-row file, label change, legacy/new footer path) tuples")
@@ -136,6 +137,9 @@ def gen_cases(tier, seed):
                 files.append({"frame": f, "compression": None, "rel": "f%02d.parquet" % j})
             cases.append({"id": "CT/%s/%s" % ("-".join(map(str, counts)), route), "frame": files[0]["frame"], "opts": {"has_nulls": True, "row_group_offsets": None},
                           "files": files, "layout": "flat", "route": route, "mismatch": None, "growing_vocabulary": True})
+    # --- files named relative to the working directory
+    for i, (k_, form) in enumerate(itertools.product([1, 2, 3, 5], ["plain", "dot", "up"])):
+        cases.append({"id": "RP/%s/%d" % (form, k_), "relative_paths": True, "k": k_, "form": form, "frame": {"cols": []}, "opts": {}, "files": [], "layout": "flat", "mismatch": None})
     # --- multi-file (hive) datasets under one root, opened as one dataset by their directories, by handles, or merged from handles
     for i in range(18 if tier == "quick" else 240):
         cases.append({"id": "SD/%d/%d" % (seed, i), "sub_datasets": True, "route": ["dirs", "handles", "merge_handles"][i % 3], "nsub": 2 + (i // 3) % 2,
@@ -197,9 +201,49 @@ def run_sub_datasets(case):
         C.cleanup(root)
 
 
+def run_relative_paths(case):
+    """k files named by paths relative to the working directory (what glob.glob('*.parquet') gives)."""
+    import pandas as pd
+    import fastparquet
+    from vf.props import common as C
+    root = C.fresh_path("")
+    os.makedirs(os.path.join(root, "data"))
+    counters = {}
+    res = {"features": [], "nontrivial": False, "failures": [], "counters": counters}
+    cwd = os.getcwd()
+    try:
+        want, names = [], []
+        for j in range(case["k"]):
+            df = pd.DataFrame({"rid": np.arange(10 * j, 10 * j + 3 + j, dtype="int64"), "s": np.array(["t%d" % j] * (3 + j), dtype=object)})
+            fastparquet.write(os.path.join(root, "data", "f%02d.parquet" % j), df)
+            want += df["rid"].tolist()
+            names.append({"plain": "f%02d.parquet", "dot": "./f%02d.parquet", "up": "../data/f%02d.parquet"}[case["form"]] % j)
+        os.chdir(os.path.join(root, "data"))
+        ctx = {"route": "relative_paths", "form": case["form"], "n_files": case["k"]}
+        try:
+            pf = fastparquet.ParquetFile(names)
+            got = pf.to_pandas(columns=["rid"], index=False)["rid"].tolist()
+        except Exception as e:
+            res["failures"].append({"kind": "open_or_read_raised", **ctx, **C.exc_shape(e)})
+        else:
+            if [int(x) for x in got] != want:
+                res["failures"].append({"kind": "rows_differ_from_concatenation", "expected_n": len(want), "got_n": len(got), **ctx})
+            counters["opens_by_relative_paths_compared"] = 1
+            counters["opens_compared"] = 1
+        res["outcome"] = "ok"
+        res["nontrivial"] = True
+        res["features"] = [str(("relative", case["form"], case["k"]))]
+        return res
+    finally:
+        os.chdir(cwd)
+        C.cleanup(root)
+
+
 def run_case(case):
     if case.get("sub_datasets"):
         return run_sub_datasets(case)
+    if case.get("relative_paths"):
+        return run_relative_paths(case)
     import pandas as pd
     import fastparquet
     from fastparquet import writer as W
@@ -469,4 +513,4 @@ def run_case(case):
 def required(tier):
     return {"opens_compared": 120, "route:list": 15, "route:dir": 15, "route:glob": 15, "route:merge": 15, "route:merge_pf": 15,
             "footer_path:new": 30, "footer_path:legacy": 30, "mismatch_rejected": 20, "partition_values_checked": 100, "footer_lattice_points": 30,
-            "growing_vocabulary_opens": 20, "merge_with_root": 10, "piece_handles_rechecked": 40, "second_opens_from_derived_handles": 10, "mismatch_rejected:tz": 3, "mismatch_rejected:width": 3, "files_of_another_writer_in_the_set": 10, "opens_over_directories_named_with_a_common_prefix": 10, "sub_dataset_opens_compared": 6}
+            "growing_vocabulary_opens": 20, "merge_with_root": 10, "piece_handles_rechecked": 40, "second_opens_from_derived_handles": 10, "mismatch_rejected:tz": 3, "mismatch_rejected:width": 3, "files_of_another_writer_in_the_set": 10, "opens_over_directories_named_with_a_common_prefix": 10, "sub_dataset_opens_compared": 6, "opens_by_relative_paths_compared": 8}
